@@ -36,11 +36,12 @@ class MetaSignals(type):
     """
 
     def __init__(cls, name: str, bases: tuple[type, ...], d: dict[str, typing.Any]) -> None:
-        signals = d.get("signals", [])
+        # a copy: the list in the class body may be shared with other classes
+        signals = list(d.get("signals", []))
         for superclass in cls.__bases__:
             signals.extend(getattr(superclass, "signals", []))
         signals = list(dict.fromkeys(signals).keys())
-        d["signals"] = signals
+        cls.signals = signals
         register_signal(cls, signals)
         super().__init__(name, bases, d)
 
